@@ -133,7 +133,7 @@ def run_model(case, drv) -> Outcome:
             acc = torch.zeros(pshape if pshape else [], dtype=torch.float64)
             for idx, v in zip(idxs, dw):
                 acc[idx[1:]] += v
-            if float((g - acc).abs().max()) > 1e-9 * (1 + float(acc.abs().max())):
+            if float((g - acc).abs().nan_to_num(nan=float('inf')).max()) > 1e-9 * (1 + float(acc.abs().max())):
                 corr = corr or f'{cfg}: autograd gradient of parameter {gi} differs from the analytic derivative {dfn}'
                 viol = viol or {'signature': f'model:{name}:gradient', 'what': f'{cfg}: autograd gradient w.r.t. parameter {gi} differs from the analytic derivative'}
     else:
@@ -199,7 +199,7 @@ def run_constraint(case, drv) -> Outcome:
         viol = {'signature': f'constraint:inverse:{m["case"]}', 'what': f'{cfg}: inverse(forward(x)) != x: {xb.tolist()[:3]} vs {x.tolist()[:3]}'}
     else:
         (y2,) = op(op.inverse(y)[0])
-        if float((y2 - y).abs().max()) > 1e-6 * (1 + float(y.abs().max())):
+        if float((y2 - y).abs().nan_to_num(nan=float('inf')).max()) > 1e-6 * (1 + float(y.abs().max())):
             viol = {'signature': 'constraint:forward-inverse', 'what': f'{cfg}: forward(inverse(y)) != y'}
     return Outcome(key=('constraint', case['lb'], case['ub'], bs, bp), corr=corr, viol=viol, branches=[f'case:{m["case"]}', f'lb:{case["lb"]}', f'ub:{case["ub"]}'],
                    sample=case)
